@@ -111,8 +111,13 @@ func (n *RealNode) View() NodeView {
 			v.Chain = ch[1:]
 		}
 		buf := make([]byte, info.Size)
-		n.srv.ReadAt(buf, 0)
-		v.Data = string(buf)
+		if _, err := n.srv.ReadAt(buf, 0); err != nil {
+			// an open replica that cannot read its own volume end to end (a chain file shorter than the volume, ...): the
+			// image is not what any other replica holds, whatever bytes came back
+			v.Data = "READ-ERROR " + err.Error() + "\n" + string(buf)
+		} else {
+			v.Data = string(buf)
+		}
 	} else {
 		v.Data = string(make([]byte, info.Size))
 	}
